@@ -19,6 +19,7 @@ type opT struct {
 	Pod  cachectl.PodSpec
 	Node cachectl.NodeX
 	PG   cachectl.PGSpec
+	Prio cachectl.PrioSpec
 	A    []int64 // ids
 	OK   bool
 	F    int64 // bind: 1 bound, 0 Binder.Bind fails, 2 / 3 pre-bind fails with status update ok / failing
@@ -45,7 +46,9 @@ func (o opT) enc() []int64 {
 		return append(out, vh.B(n.OverNode), vh.B(n.Offline), n.Zone, vh.B(n.Unsched), vh.B(n.Tainted), vh.B(n.NotRdy))
 	case 5:
 		g := o.PG
-		return []int64{5, g.ID, g.UID, g.Queue, g.Min, g.Conds, vh.B(g.Ann)}
+		return []int64{5, g.ID, g.UID, g.Queue, g.Min, g.Conds, vh.B(g.Ann), g.Class}
+	case 15:
+		return []int64{15, o.Prio.ID, o.Prio.Value, vh.B(o.Prio.Global)}
 	case 9, 10, 13:
 		return []int64{o.Code}
 	case 11:
@@ -125,11 +128,13 @@ func decCase(in []int64) (ops []opT, ok bool) {
 			n.Unsched, n.Tainted, n.NotRdy = next() != 0, next() != 0, next() != 0
 			o.Node = n
 		case 5:
-			o.PG = cachectl.PGSpec{ID: pos(), UID: next(), Queue: next(), Min: next(), Conds: next(), Ann: next() != 0}
-			if o.PG.Queue < 0 {
+			o.PG = cachectl.PGSpec{ID: pos(), UID: next(), Queue: next(), Min: next(), Conds: next(), Ann: next() != 0, Class: next()}
+			if o.PG.Queue < 0 || o.PG.Class < 0 {
 				fail = true
 			}
-		case 2, 4, 6, 7, 8, 14:
+		case 15:
+			o.Prio = cachectl.PrioSpec{ID: pos(), Value: next(), Global: next() != 0}
+		case 2, 4, 6, 7, 8, 14, 16:
 			o.A = []int64{pos()}
 		case 9, 10, 13:
 		case 11:
@@ -181,6 +186,10 @@ func apply(c *cachectl.Ctl, o opT) int64 {
 		return c.Evict(o.A[0], o.A[1], o.OK)
 	case 14:
 		c.ApiGone(o.A[0])
+	case 15:
+		c.PrioEvent(o.Prio)
+	case 16:
+		c.PrioDelete(o.A[0])
 	}
 	return 0
 }
@@ -192,6 +201,7 @@ func freshFromFinal(ops []opT) *cachectl.Ctl {
 	nodes := map[int64]cachectl.NodeX{}
 	pgs := map[int64]cachectl.PGSpec{}
 	queues := map[int64]bool{}
+	prios := map[int64]cachectl.PrioSpec{}
 	for _, o := range ops {
 		switch o.Code {
 		case 1:
@@ -210,9 +220,16 @@ func freshFromFinal(ops []opT) *cachectl.Ctl {
 			queues[o.A[0]] = true
 		case 8:
 			delete(queues, o.A[0])
+		case 15:
+			prios[o.Prio.ID] = o.Prio
+		case 16:
+			delete(prios, o.A[0])
 		}
 	}
 	c := cachectl.New()
+	for _, id := range sched.SortedIDs(prios, func(k int64) int64 { return k }) {
+		c.PrioEvent(prios[id])
+	}
 	for _, id := range sched.SortedIDs(pods, func(k int64) int64 { return k }) {
 		c.PodEvent(pods[id])
 	}
